@@ -893,6 +893,6 @@ func main() {
 		Run:         run,
 		MinEvals:    3000,
 		MinDistinct: 150,
-		Require:     []string{"accepted_blocks_tampered", "tampers_rejected", "positive_controls_resigned_accepted", "key_rotating_revisions_seen"},
+		Require:     []string{"directed_authorization_scenarios", "accepted_blocks_tampered", "tampers_rejected", "positive_controls_resigned_accepted", "key_rotating_revisions_seen"},
 	})
 }
